@@ -256,6 +256,19 @@ def corpus_cases():
                                    ("fnptr", (N, N)), ("fnptr", (A, A)), ("fnptr", (A,)), ("tuple", (A, ("ref", False, B))), ("tuple", (A, N)),
                                    ("array", ("adt", "E", ()), 2), ("raw", True, N), ("slice", ("adt", "X", ())))]
     out.append((p, gs))
+    # #[upstream] explicit impls are explicit impls: they suppress the field-based auto impl like local ones
+    Data, RcD = ("adt", "Data", ()), ("adt", "Rc", (("adt", "Data", ()),))
+    p = rg.Prog([rg.Adt("Data"), rg.Adt("Rc", 1, "struct", [[("var", 0)]]), rg.Adt("Holder", 0, "struct", [[RcD]]),
+                 rg.Adt("Node", 0, "struct", [[("adt", "Rc", (("adt", "Node", ()),))]]), rg.Adt("Up", 0, "struct", [[Data]], upstream=True),
+                 rg.Adt("Arc", 1, "struct", [[("var", 0)]], upstream=True)],
+                [rg.Trait("Send", auto=True), rg.Trait("Sync", auto=True)],
+                [rg.Impl(1, ("Send", (("adt", "Rc", (("var", 0),)),)), [], False, upstream=True),
+                 rg.Impl(1, ("Sync", (("adt", "Arc", (("var", 0),)),)), [("Send", (("var", 0),))], True, upstream=True),
+                 rg.Impl(0, ("Sync", (("tuple", (Data, Data)),)), [], False, upstream=True)], [], "corpus")
+    gs = [(tr, (t,)) for tr in ("Send", "Sync") for t in (Data, RcD, ("adt", "Holder", ()), ("adt", "Node", ()), ("adt", "Up", ()),
+                                                           ("adt", "Arc", (Data,)), ("adt", "Arc", (RcD,)), ("tuple", (Data, Data)), ("tuple", (RcD, Data)),
+                                                           ("tuple", (Data,)), ("ref", False, ("adt", "Node", ())))]
+    out.append((p, gs))
     # coinduction.rs coinductive_unsound shapes: C1orC2-style cycle that depends on a false goal
     p = rg.Prog([rg.Adt("A"), rg.Adt("B"), rg.Adt("C")], [rg.Trait("C1", coind=True), rg.Trait("C2", coind=True), rg.Trait("C3", coind=True)],
                 [rg.Impl(0, ("C1", (A,)), [("C2", (A,)), ("C3", (A,))]), rg.Impl(0, ("C2", (A,)), [("C1", (A,))]),
@@ -294,12 +307,13 @@ def _body(ctx):
             c = rl.Case(pidx, p, a, "goal")
             c.text = rg.goal_text(a)
             cases.append(c)
-    hs = histories(ctx, progs[:-2], ctx.n(1, 6))
+    hs = histories(ctx, progs[:-3], ctx.n(1, 6))
     # the F7 witness itself (A: Send then B: Send), and the coinductive_unsound shapes in several orders
-    cp = len(progs) - 2
+    cp = len(progs) - 3
     hs.append((cp, [("Send", (("adt", "A", ()),)), ("Send", (("adt", "B", ()),)), ("Send", (("adt", "X", ()),)), ("Send", (("adt", "Y", ()),))]))
-    hs.append((cp + 1, [("C1", (("adt", "B", ()),)), ("C2", (("adt", "B", ()),)), ("C3", (("adt", "B", ()),)), ("C1", (("adt", "A", ()),)), ("C2", (("adt", "A", ()),))]))
-    hs.append((cp + 1, [("C3", (("adt", "B", ()),)), ("C2", (("adt", "A", ()),)), ("C1", (("adt", "A", ()),)), ("C1", (("adt", "B", ()),))]))
+    hs.append((cp + 1, [("Send", (("adt", "Node", ()),)), ("Send", (("adt", "Holder", ()),)), ("Send", (("adt", "Rc", (("adt", "Data", ()),)),))]))
+    hs.append((cp + 2, [("C1", (("adt", "B", ()),)), ("C2", (("adt", "B", ()),)), ("C3", (("adt", "B", ()),)), ("C1", (("adt", "A", ()),)), ("C2", (("adt", "A", ()),))]))
+    hs.append((cp + 2, [("C3", (("adt", "B", ()),)), ("C2", (("adt", "A", ()),)), ("C1", (("adt", "A", ()),)), ("C1", (("adt", "B", ()),))]))
     # the deliberate family "cycle that leans on something false + bystander behind a non-head member": every
     # field order of the minimal witness, random members of the wider family; histories in ALL orders
     shape_idx = []
